@@ -551,6 +551,16 @@ def oracle_guarantee(case, res):
                 or r.get("roundtrip_same_class") is not True:
             viol("registered type %s does not round-trip (== %s, text byte for byte %s, values kept %s, same class %s)"
                  % (tag, r.get("roundtrip_equal"), r.get("roundtrip_text_equal"), r.get("values_kept"), r.get("roundtrip_same_class")), r)
+        ee = r.get("extra_extensions")
+        if ee is not None:
+            if ee.get("parse") != "ok" or ee.get("kept") is not True or ee.get("extname_present") is not True \
+                    or ee.get("roundtrip_equal") is not True or ee.get("roundtrip_text_equal") is not True:
+                viol("instance of registered type %s carrying other extensions (a registered property-extension, an "
+                     "unregistered extension-definition): %s" % (tag, ee), r)
+        for vp in r.get("version_probes") or []:
+            if vp["custom"] != vp["builtin"]:
+                viol("registered type %s is not validated like the built-in %s %s: %s -> custom %s, built-in %s"
+                     % (tag, r.get("ver"), vp["builtin_type"], vp["probe"], vp["custom"], vp["builtin"]), r)
         si = r.get("side_instance")
         if si is not None:
             want_type = "new-sco" if r.get("kind") == "observable" else "new-sdo"
